@@ -259,6 +259,11 @@ func runMsgs(seed int64, histories, steps int, out *Emitter) {
 					creator = f.Owner
 				}
 				data := fmt.Sprintf(`{"price":"0.%d","24h_change":"0"}`, 1+r.Intn(98))
+				if f, found := c.A.OracleKeeper.GetFeed(c.Ctx(), name); found && r.Intn(4) == 0 {
+					// the very data the feed carries already, sent by anybody (a replay of the owner's last update)
+					data = f.Data
+					creator = users[r.Intn(4)]
+				}
 				msg = &oracletypes.MsgUpdateFeed{Creator: creator, Name: name, Data: data}
 				op = map[string]interface{}{"updateFeed": map[string]interface{}{"creator": creator, "name": name, "data": data}}
 			}
